@@ -26,6 +26,7 @@ CONSTANTS
   QIndirect, QEventIdx,
   MaxBufs,     \* largest number of buffers per submission the caller tries (<= QN+1)
   WithNotify,  \* explore should_notify / set_dev_notify and the device's suppression fields
+  Adversary,   \* the device writes arbitrary used elements / indices and takes entries blindly (C07)
   Bug          \* "none", or the name of a seeded design bug (negative configurations)
 
 VARIABLES
@@ -48,7 +49,7 @@ Bufs(i, o) == [k \in 1..(i + o) |->
 Shapes == { <<i, o>> \in (0..MaxBufs) \X (0..MaxBufs) : i + o <= MaxBufs }
 
 MCInit ==
-  /\ Init0([n |-> QN, indirect |-> QIndirect, eventIdx |-> QEventIdx, ap |-> FALSE])
+  /\ Init0([n |-> QN, indirect |-> QIndirect, eventIdx |-> QEventIdx, ap |-> FALSE, adv |-> Adversary])
   /\ freeHead = 0
   /\ shadow = [i \in 0..QN-1 |-> [addr |-> ZeroAddr, len |-> 0, flags |-> 0,
                                    next |-> IF i + 1 < QN THEN i + 1 ELSE 0]]
@@ -196,11 +197,12 @@ AddRetStep ==
 (* pop_used / recycle_descriptors *)
 ImplPopOutcome(token) ==
   IF lastUsed = usedIdx THEN "NotReady"
-  ELSE IF UsedAt(lastUsed % QN).id # token THEN "WrongToken" ELSE "Ok"
+  ELSE IF Bug # "no_token_check" /\ UsedAt(lastUsed % QN).id # token THEN "WrongToken" ELSE "Ok"
 
 CallPop(token) ==
   /\ pc = Idle
   /\ token \in DOMAIN held \/ PopOutcome(token) # "Ok"
+  /\ Bug = "no_token_check" => token \in DOMAIN held
   /\ LET o == ImplPopOutcome(token) IN
      /\ pc' = IF o # "Ok" THEN [at |-> "pop_ret_err", err |-> o]
               ELSE [at |-> IF FIndirect(shadow[token].flags) THEN "pi_table" ELSE "pd_store",
@@ -336,7 +338,16 @@ DevStep ==
      /\ DevUsedFlags(1 - usedFlags)
      /\ UNCHANGED implVars
 
-MCNext == DriverStep \/ CallerStep \/ DevStep
+\* C07: a device that does not follow the standard - any used element (ids of other chains, free
+\* descriptors, out of range), any length, any index value, blind takes
+\* (it replaces the standard-following device: what it reads is irrelevant to the driver)
+AdvStep ==
+  /\ Adversary
+  /\ \/ \E s \in 0..QN-1, id \in 0..QN : UsedAt(s) # [id |-> id, len |-> 9] /\ DevUsedElem(s, id, 9)
+     \/ \E v \in 0..IdxMod-1 : v # usedIdx /\ DevUsedIdxRaw(v)
+  /\ UNCHANGED implVars
+
+MCNext == DriverStep \/ CallerStep \/ (~Adversary /\ DevStep) \/ AdvStep
 MCSpec == MCInit /\ [][MCNext]_allVars
 
 -----------------------------------------------------------------------------
